@@ -44,7 +44,7 @@ from collections import defaultdict
 from functools import singledispatchmethod
 
 from ufl.algorithms.map_integrands import map_integrands
-from ufl.algorithms.remove_component_tensors import IndexReplacer
+from ufl.algorithms.remove_component_tensors import IndexReplacer, _bound_index_counts
 from ufl.classes import (
     Division,
     Expr,
@@ -57,7 +57,7 @@ from ufl.classes import (
     Product,
 )
 from ufl.constantvalue import ScalarValue, Zero, as_ufl
-from ufl.core.multiindex import FixedIndex, MultiIndex
+from ufl.core.multiindex import FixedIndex, Index, MultiIndex
 from ufl.corealg.dag_traverser import DAGTraverser
 from ufl.corealg.map_dag import map_expr_dag
 from ufl.domain import extract_unique_domain
@@ -257,7 +257,14 @@ class IdentityEliminator(IndexSumSimplifier):
                 others = with_k[:i] + with_k[i + 1 :] + rest
                 if not others:
                     return None
-                return self._substitute(_make_product(others), k, a)
+                product = _make_product(others)
+                touched = {k.count()}
+                if isinstance(a, Index):
+                    touched.add(a.count())
+                if touched & _bound_index_counts(product):
+                    # Replacing k by a below a binder of k or a would shadow or capture
+                    return None
+                return self._substitute(product, k, a)
         return None
 
     # Work around singledispatchmethod inheritance issue;
